@@ -772,3 +772,4 @@ RENAME_FUNCS = [(ED, 'LookbackEventSequenceEncoderDecoder.events_to_label'), (ED
 
 EXPLANATION += (' Location-independent additions: PIANOROLL/wide-label (no numpy fixed-width operand where the label needs input_size bits), GEN/chord-label-split (C09 rule shared), GEN/full-history (history handed to class_index_to_event complete or bounded by max(distances)).')
 EXPLANATION += (' Round 6: ' + 'GEN/sampled-size: the size given to np.random.choice is the length of a distribution taken from the same element as p.')
+EXPLANATION += (' Round 7: ' + 'GEN/steps-by-decoding (every labels_to_num_steps decodes its labels or delegates); NOTEPERF/pitch-block-size.')
